@@ -269,3 +269,36 @@ Theorem C14_generated_run_is_model :
     gen_run k tup (emb_state s) ops = map emb_step (run s ops).
 Proof. exact gen_run_is_model. Qed.
 Print Assumptions C14_generated_run_is_model.
+
+(* ---- translator tie for the two static methods (harness/py2v_latin.py ->
+   gen/LatinGen.v, regenerated from poorwsgi/headers.py on every run): the
+   primitive [p_iso88591] the theorems above rest on is itself generated
+   from the source, and so is [utf8] ---- *)
+Require Import PW.lib.PyLatin PW.gen.LatinGen PW.proofs.LatinGenEq.
+
+(* Headers.iso88591(a) for a str (also with lone surrogates), bytes, None,
+   int: what the model says, and never a UnicodeError *)
+Theorem C14_generated_iso88591_is_model :
+  forall a : arg, gen_iso88591 (emb_arg a) = emb_res_str (iso88591 a).
+Proof. exact gen_iso88591_is_model. Qed.
+Print Assumptions C14_generated_iso88591_is_model.
+
+(* for every Python value of lib/PyHeaders.v the generated function is the
+   primitive that gen/HeadersGen.v calls *)
+Theorem C14_generated_iso88591_is_the_primitive :
+  forall v : hv, gen_iso88591 v = plift (p_iso88591 v).
+Proof. exact gen_iso88591_is_primitive. Qed.
+Print Assumptions C14_generated_iso88591_is_the_primitive.
+
+(* Headers.utf8(s) for a str s *)
+Theorem C14_generated_utf8_is_model :
+  forall s : str, gen_utf8 (VStr s) = POk (VStr (utf8 s)).
+Proof. exact gen_utf8_is_model. Qed.
+Print Assumptions C14_generated_utf8_is_model.
+
+(* Headers.__iter__, its iterator consumed at once (list(h), for kv in h):
+   the model's OItems ("items(), also list(h)") *)
+Theorem C14_generated_iter_is_model :
+  forall s : state, gen_iter (emb_state s) = emb_iter_step (step s OItems).
+Proof. exact gen_iter_is_model. Qed.
+Print Assumptions C14_generated_iter_is_model.
